@@ -127,6 +127,10 @@ Proof.
     split; [intros _ _; split; [exact W2|exact Hin2]|]. discriminate.
   - assert (Hne : r_heap r2 <> []).
     { apply (w_heap _ W2). pose proof (w_nonempty _ W2). lia. }
+    (* the empty-heap branch of the repaired code is dead for a reassembler taken from the map
+       between two sequential calls *)
+    destruct (length (r_heap r2) =? 0)%nat eqn:Eemp;
+      [apply Nat.eqb_eq, length_zero_iff_nil in Eemp; contradiction|].
     pose proof (reassemble_no_panic _ Hne) as Hnp.
     pose proof (w_done _ W2) as Hd2.
     destruct (reassemble (r_heap r2)) as [[bytes| |] h'] eqn:Er; cbn [fst] in Hnp; [| |congruence];
